@@ -154,8 +154,8 @@ def wrap(
             if not is_list_item(remaining_text.strip()):
                 text = text.replace("\n", " ", 1)
 
-        # Save the new `first` line.
-        first = f"{initial[0]}\n"
+        # Save the new `first` line (a blank first line wraps to nothing).
+        first = f"{initial[0]}\n" if initial else "\n"
 
     # Ensure that there are 2 new lines after a colon, otherwise
     # the sphinx docs build will fail.
